@@ -32,6 +32,7 @@ PROP = dict(
                 'glob matches; one bad recipe line fails the run; per structured line / recipe / script the model '
                 'of the code agrees with the manual (C17_holds). Per case Coq evaluates wf, model=obs, spec(obs)',
     assumptions=[
+        'constants regenerated from the source on every run (Gen/Consts.v) that the predicate or the documented part of the model rests on -- the four compressor extension tables, groupMasks / settingMasks, vdb.PermBits and FileType_* -- are compared with literals by theorem C17_constants_pinned: an edit of one of them is reported (proof obligation no longer checks) and has to be reviewed; values the manual does not state are the values of the reviewed tree',
         'chmod reference: GNU reading of POSIX chmod (sticky bit belongs to "o"), an omitted who means "a" with umask 0, '
         'regular files; two leniencies (operator-less permission letters mean +, empty/who-only clauses are no-ops) '
         'are marked and excluded when the reference is compared with chmod(1)',
